@@ -4,9 +4,9 @@ import OPM.Model.SaveConc
 namespace Driver.SaveConc
 open OPM OPM.Wire OPM.SaveConc
 
-/-- ops:  `init <v0> <locked 0/1> <reset 0/1>` → fresh state at version v0 in the system variant the harness measured on
-                                     the real handler (lock across the round trip? version reset on re-registration?)
-          `initm <v0> <locked> <reset>` → same with the lock bit flipped (mutant for the self-test)
+/-- ops:  `init <v0> <locked 0/1> <reset 0/1> <precheck 0/1>` → fresh state at version v0 in the system variant the harness measured on
+                                     the real handler (lock across the round trip? version reset on re-registration? extra check in front of the lock?)
+          `initm <v0> <locked> <reset> <precheck>` → same with the lock bit flipped (mutant for the self-test)
           `disconnect` | `register` → the engine's connection drops / the engine registers again
           `start <id> <base>`      → a save request enters
           `reply <id> <ok 0/1>`    → the engine's answer to the pending round trip of save <id> arrives
@@ -37,14 +37,14 @@ def render (s : State) : String :=
 
 def step (st : St) (line : String) : St × String :=
   match fields line with
-  | ["init", v, l, r] =>
-    match v.toNat?, parseBool l, parseBool r with
-    | some v, some l, some r => let st' : St := ⟨⟨l, r⟩, OPM.SaveConc.init v⟩; (st', render st'.s)
-    | _, _, _ => (st, "bad-op")
-  | ["initm", v, l, r] =>
-    match v.toNat?, parseBool l, parseBool r with
-    | some v, some l, some r => let st' : St := ⟨⟨!l, r⟩, OPM.SaveConc.init v⟩; (st', render st'.s)
-    | _, _, _ => (st, "bad-op")
+  | ["init", v, l, r, p] =>
+    match v.toNat?, parseBool l, parseBool r, parseBool p with
+    | some v, some l, some r, some p => let st' : St := ⟨⟨l, r, p⟩, OPM.SaveConc.init v⟩; (st', render st'.s)
+    | _, _, _, _ => (st, "bad-op")
+  | ["initm", v, l, r, p] =>
+    match v.toNat?, parseBool l, parseBool r, parseBool p with
+    | some v, some l, some r, some p => let st' : St := ⟨⟨!l, r, p⟩, OPM.SaveConc.init v⟩; (st', render st'.s)
+    | _, _, _, _ => (st, "bad-op")
   | ["disconnect"] =>
     match OPM.SaveConc.step st.cfg st.s .disconnect with
     | some s' => ({ st with s := s' }, render s')
